@@ -964,6 +964,8 @@ def write_database(db: Database,
         schema = read_schema(schema)
     if names is None:
         names = list(schema)
+    else:
+        names = list(names)  # it is used more than once
 
     # Prepare destination directory
     path.mkdir(exist_ok=True)
